@@ -131,7 +131,9 @@ Shapes(k, st) ==
 
 (* file_rel_default: relative LoadFromFile through the library's default (caching) reader; the   *)
 (* universes of a run are loaded one after the other in one process, each from its own directory  *)
-Entries == {"file_abs", "file_rel", "datapath", "file_rel_default"}
+(* uri_remote: LoadFromURI of https://root.example/r/openapi.json; the reader serves that host     *)
+(* from the universe's files, so a relative reference must be asked for at that host again        *)
+Entries == {"file_abs", "file_rel", "datapath", "file_rel_default", "uri_remote"}
 
 QuickSlice(sh, st, e, pos) ==
    \/ (st \in {"plain", "abspath", "http"} /\ e = "file_abs")
@@ -141,12 +143,14 @@ QuickSlice(sh, st, e, pos) ==
    \/ (sh.shape \in {"child", "chain3", "diamond"} /\ e = "file_abs" /\ pos = "op")
    \/ (sh.shape \in {"direct", "child"} /\ st = "plain" /\ pos = "op")
    \/ (sh.shape \in {"direct", "chain3", "wholefile"} /\ e = "file_rel_default" /\ pos = "op")
+   \/ (sh.shape \in {"direct", "chain3", "wholefile", "child", "backref"} /\ e = "uri_remote" /\ st \in {"plain", "updown"} /\ pos = "op")
 
 CONSTANT Allows      \* settings of IsExternalRefsAllowed to generate
 VARIABLE case
 Init == \E k \in Kinds, st \in Styles, e \in Entries, pos \in {"op", "comp"}, al \in Allows :
           \E sh \in Shapes(k, st) :
              /\ (Tier = "quick" => QuickSlice(sh, st, e, pos))
+             /\ (e = "uri_remote" => st \in RelStyles)
              /\ (k = "securitySchemes" => pos = "comp")        \* security schemes are referenced by name, not by $ref
              /\ case = [kind |-> k, style |-> st, entry |-> e, pos |-> pos, shape |-> sh.shape,
                         site |-> (IF "site" \in DOMAIN sh THEN sh.site ELSE "-"), u |-> sh.u, allow |-> al]
